@@ -89,6 +89,7 @@ Definition out_eqb (a b : out) : bool :=
   | ONewRound h p l, ONewRound h' p' l' => N.eqb h h' && opt_eqb block_eqb p p' && Bool.eqb l l'
   | OArm h v, OArm h' v' => N.eqb h h' && N.eqb v v'
   | OStop, OStop => true
+  | OStore k h v x i, OStore k' h' v' x' i' => N.eqb k k' && N.eqb h h' && N.eqb v v' && N.eqb x x' && N.eqb i i'
   | OPanic, OPanic => true
   | _, _ => false
   end.
